@@ -603,15 +603,21 @@ func (n *nlWrap) routeReplace(rt *netlink.Route) error {
 	w := n.w
 	w.call("RouteReplace")
 	w.maybeMidApplyChange()
-	stuckKey := mocknetlink.KeyForRoute(rt)
-	if w.replaceStuck[stuckKey] {
-		// the kernel keeps rejecting this particular route for the rest of this Apply
+	stuckKey := canon(rt)
+	if w.faultsOn && w.replaceStuck[stuckKey] {
+		// the kernel keeps rejecting this particular route (think "nexthop has
+		// invalid gateway") until circumstances change: modelled as "until the
+		// clock is advanced"
 		w.r.Fault("route_replace")
 		w.dp.FailuresToSimulate |= mocknetlink.FailNextRouteReplace
 		return n.Interface.RouteReplace(rt)
 	}
-	if w.fault("route_replace") {
-		if w.inApply && w.r.Src.Chance(400, "replace_sticky") {
+	_, inFlight := w.felixDeleted[mocknetlink.KeyForRoute(rt)]
+	// a delete-then-add sequence is not atomic: the add that follows Felix's own
+	// delete of the same destination is the call with in-flight state, so it
+	// has its own (higher) failure rate
+	if (inFlight && w.fault("route_replace_after_own_delete")) || w.fault("route_replace") {
+		if w.r.Src.Chance(400, "replace_sticky") {
 			w.replaceStuck[stuckKey] = true
 			w.r.Probe("route_replace_failed_persistently")
 		}
@@ -1221,13 +1227,11 @@ func (w *world) apply(tag string) error {
 	w.callBudget = 200 + 40*(nRoutes+nDes+len(w.devices))
 	w.calls = 0
 	w.inApply, w.changedInApply = true, false
-	w.replaceStuck = map[string]bool{}
 	w.seg = w.snapshotNonOwned()
 	var err error
 	w.sut(func() { err = w.rt.Apply() })
 	w.checkSegment("end of " + tag)
 	w.inApply = false
-	w.replaceStuck = map[string]bool{}
 	w.downSince = map[string]bool{}
 	if err != nil {
 		w.r.Probe("apply_returned_error")
@@ -1280,7 +1284,7 @@ func cidrs(v6 bool, n int) (pool, foreign []ip.CIDR, gws []string) {
 var faultKinds = []string{
 	"link_list", "link_list_eintr", "link_by_name", "link_by_name_lie_notfound",
 	"route_list", "route_list_eintr", "route_list_wrapped_eintr",
-	"route_replace", "route_del", "neigh_set",
+	"route_replace", "route_replace_after_own_delete", "route_del", "neigh_set",
 	"new_netlink", "set_socket_timeout", "set_strict",
 }
 
@@ -1294,7 +1298,7 @@ func run(r *core.R) {
 		"start_state_foreign_routes", "sut_used_closed_netlink_handle", "converged_after_1", "converged_after_2", "converged_after_3", "conntrack_cleanup_called", "ipv6_run")
 
 	w := &world{r: r, desired: map[int]map[string]map[string]routetable.Target{}, conflictKeys: map[string]bool{}, rescanLost: map[string]bool{}, felixDeleted: map[string]delRec{}, staleKeys: map[string]bool{}, staleIfaces: map[string]bool{},
-		seenBy: map[int]time.Time{}, downSince: map[string]bool{}, rate: map[string]int{}, staleAll: true, nextIdx: 2}
+		replaceStuck: map[string]bool{}, seenBy: map[int]time.Time{}, downSince: map[string]bool{}, rate: map[string]int{}, staleAll: true, nextIdx: 2}
 
 	// ---- swarm configuration
 	w.v6 = r.Src.Chance(250, "cfg_v6")
@@ -1356,6 +1360,9 @@ func run(r *core.R) {
 		for _, k := range faultKinds {
 			if r.Src.Chance(450, "cfg_fault_on_"+k) {
 				w.rate[k] = r.Src.Range(20, 250, "cfg_fault_rate_"+k)
+				if k == "route_replace_after_own_delete" {
+					w.rate[k] = r.Src.Range(200, 700, "cfg_fault_rate_inflight")
+				}
 				enabled++
 			}
 		}
@@ -1568,6 +1575,7 @@ func run(r *core.R) {
 		case 8:
 			d := time.Duration(r.Src.Range(1, 40, "time_s")) * time.Second
 			r.Op("advance time %v", d)
+			w.replaceStuck = map[string]bool{}
 			w.mt.IncrementTime(d)
 			r.AddSimTime(d)
 		case 11:
